@@ -85,8 +85,10 @@ func TestRaceAudit(t *testing.T) {
 	var cases []ra.Case
 	for _, fx := range space.Blocks(false) {
 		fx := fx
-		big := len(fx.Cbor) > 20000 // the larger real blocks: canonical form only (the 648 kB EBB is left out: 5 s per decode under -race)
-		cases = append(cases, blockCase(fx.Name, fx.Type, fx.Cbor))
+		big := len(fx.Cbor) > 9000 // the 18 kB Babbage block: header and first transaction only (the 648 kB EBB is left out entirely: 5 s per decode under -race)
+		if !big || fx.Name == "alonzo" || fx.Name == "conway" {
+			cases = append(cases, blockCase(fx.Name, fx.Type, fx.Cbor))
+		}
 		root, err := space.Parse(fx.Cbor)
 		if err != nil || root.Major != 4 || len(root.Items) < 2 {
 			continue
